@@ -110,6 +110,21 @@ def run_case(c):
             for j in range(3):
                 if np.abs(dD[j] - dD[j].conj().T).max() > 1e-12 * max(scale, 1e-300):
                     bad("derivative_not_hermitian", "dD/dq_%d is not Hermitian: %.3e" % (j, np.abs(dD[j] - dD[j].conj().T).max()), direction=j, **feat)
+        # the same derivative from a dynamical-matrix object built the way a direct user of the module builds it (get_dynamical_matrix with its
+        # default use_openmp=False: the serial branch of the compiled kernel): identical to the object Phonopy built
+        from phonopy.harmonic.dynamical_matrix import get_dynamical_matrix
+
+        dm_s = get_dynamical_matrix(np.array(ph.force_constants), sc, pr, nac_params=(dict(ph.nac_params) if c["nac"] else None))
+        ddm_s = DerivativeOfDynamicalMatrix(dm_s)
+        for q in qs[:3]:
+            ddm.run(q, lang=c["lang"])
+            ddm_s.run(q, lang=c["lang"])
+            a_, b_ = np.array(ddm.d_dynamical_matrix), np.array(ddm_s.d_dynamical_matrix)
+            obs["n_dD_serial_object"] = obs.get("n_dD_serial_object", 0) + 1
+            if np.abs(a_ - b_).max() > 1e-12 * max(np.abs(a_).max(), 1e-300):
+                bad("derivative_dynmat_serial_object", "dD/dq (%s) from a DynamicalMatrix built with use_openmp=False differs from the one Phonopy built by %.3e (scale %.3e) at q=%s" % (
+                    c["lang"], np.abs(a_ - b_).max(), np.abs(a_).max(), np.round(q, 4).tolist()), **feat)
+                break
         # group velocities (need Hermitian D => use any class; gradient oracle is of phonopy's own frequencies)
         factor = ph.unit_conversion_factor
         # phonopy symmetrises group velocities with the little group of q taken from the PRIMITIVE cell's symmetry; that is only legitimate when
